@@ -14,7 +14,8 @@ from vlib import core
 
 THEOREMS = ["C18_options", "C18_unknown_names_error", "C18_parse", "C18_variable", "C18_ws_insensitive", "C18_outer_ws",
             "C18_cache_transparent", "C18_cache_transparent_keys", "C18_cache_schedule_independent", "C18_spec", "C18_spec_var",
-            "C18_old_refuted", "C18_accessor_current_locale", "C18_defaulted_uses_requested_locale", "C18_rebind_refuted"]
+            "C18_old_refuted", "C18_accessor_current_locale", "C18_defaulted_uses_requested_locale", "C18_rebind_refuted",
+            "C18_provider_global", "C18_provider_thread_local_refuted"]
 PROPS = "theories/Props/C18.v"
 REGISTRY = {
     "level": "proof",
@@ -33,7 +34,7 @@ REGISTRY = {
             "correspondence runs); ICU4X 1.5 compiled data as formatting oracle; std::sync::RwLock for the atomicity of with_mut; "
             "Python generator; Rust harness h_fmt. No axioms.",
     "engine": "coq",
-    "packages": [("h_fmt",), ("h_ctx",)],
+    "packages": [("h_fmt",), ("h_fmt_prov",), ("h_ctx",)],
 }
 PRE = ("From Coq Require Import List NArith Bool.\nImport ListNotations.\n"
        "From LI Require Import Base.StrOps Parser.Formatter Parser.FormatterCheck.\nOpen Scope N_scope.\n")
@@ -541,15 +542,17 @@ def macro_level(exe, fseen, byfmt, numvals=None):
     return findings, n, extra
 
 
-def ops_level(ctx, exe, K, pools, numvals=None):
-    """random operation sequences on the process-wide cache: one thread vs 8 threads racing on first use"""
+def ops_level(ctx, exe, K, pools, numvals=None, provider_build=False):
+    """random operation sequences on the process-wide cache: one thread vs 8 threads racing on first use.
+    provider_build: the h_fmt_prov binary (no icu_compiled_data; a custom provider installed once on the main thread):
+    the 8 workers never installed a provider themselves, every one of them must format like the main thread"""
     rng = ctx.rng
     codes = sorted({c for _, c in K.values() if c not in ("?", "N")})
     tz = [c for c in codes if re.match(r"^(t[01]|D\d_[01])$", c)]
     ok_codes = [c for c in codes if c not in tz]
     nvals = pools
     locales = ["en", "fr", "ar", "ja"]
-    rounds = 6 if ctx.quick else 30
+    rounds = (6 if ctx.quick else 30) if not provider_build else (3 if ctx.quick else 10)
     nops = 400 if ctx.quick else 1200
     findings, stats = [], {"ops_rounds": 0, "ops_calls": 0, "ops_first_use_races": 0}
 
@@ -580,7 +583,7 @@ def ops_level(ctx, exe, K, pools, numvals=None):
         return [tuple(dec(x) for x in l.split("|")) for l in res]
 
     for r in range(rounds):
-        with_tz = r % 3 == 2
+        with_tz = r % 3 == 2 and not provider_build
         ops = gen(with_tz)
         seq = run_ops("seq", ops)
         par = run_ops("par", ops)
@@ -592,6 +595,14 @@ def ops_level(ctx, exe, K, pools, numvals=None):
         for i, (op, (ls, ds), (lp, dp)) in enumerate(zip(ops, seq, par)):
             rec = {"level": "operation sequence", "round": r, "index": i, "op": {"formatter": op[0], "locale": op[1], "value_id": op[2]},
                    "one_thread": ls, "eight_threads": lp, "icu4x_direct": ds}
+            if provider_build:
+                rec["level"] = ("operation sequence, build without icu_compiled_data: data provider installed once on the main "
+                                "thread with set_icu_data_provider (harness h_fmt_prov)")
+                rec["minimal_sequence"] = ["%s %s %d" % op]
+                rec["replay_with"] = "h_fmt_prov"
+                if lp == "PANIC" and ls == ds:
+                    rec["explanation"] = ("a worker thread that did not install the provider itself panicked where the main "
+                                          "thread formats: the provider (and the cache) must be process-wide state")
             if numvals and op[0][0] in "nc":
                 rec["op"]["value"] = numvals.get(str(op[2]))
             if ds == "PANIC":
@@ -697,6 +708,11 @@ def run(ctx):
         items.append(direct_item(name, args, o))
         meta.append({"kind": "direct", "name": name, "args": args, "impl": o, "from": "t*_format! tokens of the harness"})
     ops_find, ops_stats = ops_level(ctx, exe, K, rt_stats["value_pools"], rt_stats["numeric_inputs"])
+    exe_prov = os.environ.get("C18_EXE_PROV") or os.path.join(core.cargo_build("h_fmt_prov"), "h_fmt_prov")
+    prov_find, prov_stats = ops_level(ctx, exe_prov, K, rt_stats["value_pools"], rt_stats["numeric_inputs"], provider_build=True)
+    ops_find += prov_find
+    ops_stats = dict(ops_stats, **{"custom_provider_" + k: v for k, v in prov_stats.items()})
+    ops_stats["ops_calls"] += prov_stats["ops_calls"]
     doc_find, doc_stats = doc_level(exe)
     codes = core.coq_eval(ctx, "c18", PRE, items, "check")
     bad_spec = [m for m, c in zip(meta, codes) if c == 3]
@@ -771,7 +787,8 @@ def run(ctx):
                 "shown template's literal parts around a direct ICU4X call for the REQUESTED locale; every option combination through td_format_string!/td_format_display!, each "
                 "compared with a direct ICU4X call using the options the parser selected; %d rounds of %d random cache "
                 "operations executed by one thread and by 8 threads started together (6+ blocks of 8 first uses of one key per "
-                "round), fresh process each. non-trivial = has arguments / mutated / distinct (formatter, locale, value)"
+                "round), fresh process each; the same with the second build h_fmt_prov (leptos_i18n without icu_compiled_data, a custom "
+                "data provider installed once on the main thread, the 8 workers never install one). non-trivial = has arguments / mutated / distinct (formatter, locale, value)"
                 % (rt_stats["rt_keys"], ops_stats["ops_rounds"], ops_stats["ops_calls"] // max(1, 2 * ops_stats["ops_rounds"])),
         "samples": meta[:2] + meta[300:302] + [m for m in meta if m["kind"] == "raw"][:2] + [m for m in meta if m["kind"] == "direct"][:2],
         "traces_validated_against_impl": len(meta) + n_runtime,
@@ -798,8 +815,10 @@ def replay(ctx, path):
     print(json.dumps(obj, indent=1, ensure_ascii=False)[:4000])
     bindir = core.cargo_build("h_fmt")
     exe = os.environ.get("C18_EXE") or os.path.join(bindir, "h_fmt")
+    if rec.get("replay_with") == "h_fmt_prov":
+        exe = os.environ.get("C18_EXE_PROV") or os.path.join(core.cargo_build("h_fmt_prov"), "h_fmt_prov")
     level = rec.get("level", "")
-    if "minimal_sequence" in rec or level == "operation sequence":
+    if "minimal_sequence" in rec or level.startswith("operation sequence"):
         seq = rec.get("minimal_sequence") or ["%s %s %s" % (rec["op"]["formatter"], rec["op"]["locale"], rec["op"]["value_id"])]
         for mode in ("seq", "par"):
             rc, out, err = core.sh([exe, "ops", mode], input="".join(x + "\n" for x in seq), timeout=120)
